@@ -29,11 +29,11 @@ NORM_CLASS = "normalize:one-pass-is-not-a-fixed-point"
 MUTANTS = [
     # the reference substitution forgets the factor 1 / a of du = a dx
     ("substitution_without_jacobian",
-     [("C19_Calc.tla", "g == PScale(ia, PComp(ToPoly(e[5], e[2]), ia, RNeg(RMul(b, ia)))) IN",
-       "g == PComp(ToPoly(e[5], e[2]), ia, RNeg(RMul(b, ia))) IN")], ["SameValueInv", "SameValueOp"]),
+     [("C19_Calc.tla", "g == PScale(ia, PComp(ToPoly(e[5], e[2]), ia, QNeg(QMul(b, ia)))) IN",
+       "g == PComp(ToPoly(e[5], e[2]), ia, QNeg(QMul(b, ia))) IN")], ["SameValueInv", "SameValueOp"]),
     # the power rule divides by n instead of n + 1
     ("power_rule_off_by_one",
-     [("C19_Calc.tla", "IF i = 1 THEN Z ELSE RDiv(p[i - 1], RInt(i - 1))])", "IF i = 1 THEN Z ELSE RDiv(p[i - 1], RInt(i))])")],
+     [("C19_Calc.tla", "IF i = 1 THEN Z ELSE QDiv(p[i - 1], RInt(i - 1))]", "IF i = 1 THEN Z ELSE QDiv(p[i - 1], RInt(i))]")],
      ["SameValueInv", "SameValueOp", "TwoEvaluators"]),
     # integration by parts with the wrong sign
     ("parts_wrong_sign",
@@ -41,12 +41,12 @@ MUTANTS = [
        "Add(EvalAt(e[2], e[3], e[4], FromPoly(PMul(u, v), e[2])), IntE(")], ["SameValueInv", "SameValueOp"]),
     # the pointwise evaluator integrates with the antiderivative's constant factor 1 / i dropped
     ("evaluator_antiderivative",
-     [("C19_Eval.tla", "AntiAt(c, t) == QMul(t, PolyAt([i \\in 1..Len(c) |-> RDiv(c[i], RInt(i))], t))",
+     [("C19_Eval.tla", "AntiAt(c, t) == QMul(t, PolyAt([i \\in 1..Len(c) |-> QDiv(c[i], RInt(i))] \\o <<>>, t))",
        "AntiAt(c, t) == QMul(t, PolyAt(c, t))")], ["SameValueInv", "TwoEvaluators"]),
     # product rule of the forward-mode derivative without the second summand
     ("evaluator_product_rule",
-     [("C19_Eval.tla", "MkD(dx, QMul(a[2], b[2]), QAdd(QMul(a[3], b[2]), QMul(a[2], b[3])))",
-       "MkD(dx, QMul(a[2], b[2]), QMul(a[3], b[2]))")], ["SameValueInv", "TwoEvaluators"]),
+     [("C19_Eval.tla", "MkD(dx, QMul(a.v, b.v), QAdd(QMul(a.d, b.v), QMul(a.v, b.d)))",
+       "MkD(dx, QMul(a.v, b.v), QMul(a.d, b.v))")], ["SameValueInv", "TwoEvaluators"]),
 ]
 
 
@@ -146,7 +146,7 @@ def run(rep, tier):
     def code_driven():
         """seeded random inputs and the example files: drivers, then one validation run (while TLC explores C19_Calc)"""
         with ThreadPoolExecutor(max_workers=2) as ex2:
-            f1 = ex2.submit(run_driver, "c19", ["rand", ev_rand, 180 if quick else 6000, seed()], timeout=7200)
+            f1 = ex2.submit(run_driver, "c19", ["rand", ev_rand, 400 if quick else 6000, seed()], timeout=7200)
             f2 = ex2.submit(run_driver, "c19", ["examples", ev_ex], timeout=7200)
             f1.result()
             f2.result()
